@@ -71,16 +71,54 @@ class Unit:
         self.pre_unwindset = list(pre_unwindset)  # loops fully unwound (with unwinding assertions) before contracts are applied
 
 
+CPU_LIMIT_S = 7200
+
+
 def _limits():
+    # own session / process group: cbmc starts SMT solvers (z3, cvc5) as children, which must die with it
+    os.setsid()
     resource.setrlimit(resource.RLIMIT_AS, (MEM_KB * 1024, MEM_KB * 1024))
+    # safety net inherited by the solver children: a solver orphaned in spite of the group kill stops by itself
+    resource.setrlimit(resource.RLIMIT_CPU, (CPU_LIMIT_S, CPU_LIMIT_S + 60))
+
+
+def _kill_tree(pr):
+    """Kill a child started with _limits (session leader) together with everything it spawned."""
+    import signal
+    for sig_target in (pr.pid,):
+        try:
+            os.killpg(sig_target, signal.SIGKILL)
+        except (ProcessLookupError, PermissionError):
+            pass
+    try:
+        subprocess.run(["pkill", "-9", "-s", str(pr.pid)], stdout=subprocess.DEVNULL, stderr=subprocess.DEVNULL)
+    except Exception:
+        pass
+    try:
+        pr.kill()
+    except Exception:
+        pass
+    try:
+        pr.wait(timeout=10)
+    except Exception:
+        pass
 
 
 def _run(cmd, timeout, log):
     t0 = time.time()
+    pr = subprocess.Popen(cmd, stdout=subprocess.PIPE, stderr=subprocess.PIPE, preexec_fn=_limits)
     try:
-        p = subprocess.run(cmd, stdout=subprocess.PIPE, stderr=subprocess.PIPE, timeout=timeout, preexec_fn=_limits)
+        so, se = pr.communicate(timeout=timeout)
     except subprocess.TimeoutExpired:
+        _kill_tree(pr)
         raise Undecided("timeout after %ds: %s" % (timeout, " ".join(cmd[:3])))
+    finally:
+        _kill_tree(pr)
+
+    class _P:
+        pass
+    p = _P()
+    p.stdout, p.stderr, p.returncode = so, se, pr.returncode
     dt = time.time() - t0
     with open(log, "ab") as f:
         f.write(("$ " + " ".join(cmd) + "\n").encode())
@@ -196,9 +234,7 @@ def run_unit(u, repo=None, keep_trace=True):
                     break
                 time.sleep(0.2)
         for b, c, pr, fo in procs:
-            if pr.poll() is None:
-                pr.kill()
-                pr.wait()
+            _kill_tree(pr)     # also when it has exited: reap any solver child it left behind
             fo.close()
         if done is None:
             errs = []
